@@ -466,6 +466,8 @@ def r14_3(run):
     cp = anchor_func(run, f"{TENSOR}.copy")
     for s in own_nodes(cp.node):
         if isinstance(s, ast.Assign) and any(isinstance(t, ast.Attribute) and t.attr == "_grad" for t in s.targets):
+            if is_none_value(s.value):
+                continue  # the None arm of `copy._grad = <copy of self._grad> if self._grad is not None else None` (or a plain reset): no value stored
             recv = norm(s.targets[0].value)
             src_ok = "np.copy(self._grad)" in norm(s.value) or "self._grad.copy()" in norm(s.value)
             d = fx._single_local_value(cp, recv)
